@@ -9,6 +9,14 @@ def classify(tags):
     return tags[0]
 
 
+def kv_hex(impl_line):
+    """(key hex, value hex) of a vo / vm case as the probe's encoder produced them ('-' = empty)."""
+    f = impl_line.split("=>")[0].split()
+    if len(f) >= 4 and f[0] == "K" and f[2] == "V":
+        return f[1], f[3]
+    return None, None
+
+
 def run_cases(chk, cases, tags, expected, pybytes, name):
     impl, model, mism = chk.differential("wire", "wire", "TestVerifProbeWire", cases, name=name, project=W.project)
     bad = []
@@ -71,19 +79,22 @@ def run(chk, failed):
     # message stands for (offset_roundtrip, metadata_roundtrip ...), so a well-formed message on which the
     # implementation differs from the model / from the expected requests is a failing input of the property itself.
     seen = set()
+    why_of = dict(bad)
     for (i, c, a, b) in mism[:5]:
         seen.add(i)
         chk.violation("valid_%d" % i, {"kind": "input", "probe": "consumer/TestVerifProbeWire", "case": c,
                                        "impl_output": a, "model_output": b, "expected": expected[i],
+                                       "key_hex": kv_hex(a)[0], "value_hex": kv_hex(a)[1],
                                        "broken": "corr:consumer.processConsumerOffsetsMessage",
-                                       "oracle_verdict": "implementation differs from the model, which is proved equal to the "
-                                                         "requests a well-formed message stands for",
+                                       "oracle_verdict": why_of.get(i) or "implementation differs from the model, which is proved "
+                                                         "equal to the requests a well-formed message stands for",
                                        "cmd": "bin/check C07 --replay <this file>"})
     for (i, why) in bad[:5]:
         if i in seen:
             continue
         chk.violation("valid_%d" % i, {"kind": "input", "probe": "consumer/TestVerifProbeWire", "case": cases[i],
                                        "impl_output": impl[i], "model_output": model[i], "expected": expected[i],
+                                       "key_hex": kv_hex(impl[i])[0], "value_hex": kv_hex(impl[i])[1],
                                        "broken": "corr:consumer.processConsumerOffsetsMessage", "oracle_verdict": why,
                                        "cmd": "bin/check C07 --replay <this file>"})
     if failed and not mism and not bad:
@@ -105,8 +116,13 @@ def replay(path):
     chk = framework.Check(obj.get("property", "C07"), "quick", obj.get("seed", 1))
     case = obj["case"]
     impl, model, mism = chk.differential("wire", "wire", "TestVerifProbeWire", [case], name="replay", project=W.project)
+    exp = obj.get("expected")
+    got = W.project(impl[0].split("=>", 1)[1].strip() if "=>" in impl[0] else impl[0])
     print("case :", case)
     print("impl :", impl[0])
     print("model:", model[0])
+    if exp is not None:
+        print("a well-formed message stands for:", exp)
+        print("oracle:", "holds" if got == exp else "FAILS")
     print("MISMATCH" if mism else "agree")
-    return 1 if mism else 0
+    return 1 if (mism or (exp is not None and got != exp)) else 0
